@@ -2,7 +2,8 @@
 From Coq Require Import Permutation Sorted.
 From HTA.lib Require Import Base Cells Intervals Sweep.
 From HTA.model Require Import C04_Model C07_Model.
-From HTA.proof Require Import C04_Proofs C07_Proofs.
+From HTA.gen Require Import KernelRules_gen.
+From HTA.proof Require Import KernelRulesTie C04_Proofs C07_Proofs.
 
 (* For EVERY ts-sorted permutation A', B' of the communication / computation intervals and EVERY
    time-sorted permutation R' of the +-1 / +-2 status rows (ties inside an instant in any order):
@@ -54,3 +55,10 @@ Definition ex07 : list ev :=
     mkEv 8 4 1 0 9 9 8 0 (-1) "Memcpy DtoH" "gpu_memcpy" ].
 Example C07_nonvacuous : encode_C07 ex07 = [3; 7].
 Proof. vm_compute. reflexivity. Qed.
+
+(* the tie by regeneration: the kernel classification of the model is the chain GENERATED from the current source (get_kernel_type, the codes of
+   KernelType, the three regex wrappers; the regular expressions themselves are compared literally on every run) *)
+Theorem C07_kernel_types_follow_source : forall n,
+  ktype_code (get_kernel_type n) = kernel_type_gen (is_comm_kernel n) (is_memory_kernel n) (is_compute_kernel n).
+Proof. exact kernel_type_is_generated. Qed.
+Print Assumptions C07_kernel_types_follow_source.
